@@ -260,6 +260,51 @@ func init() {
 		p.mapDelete(syncMap(p, a[0]), a[1])
 		return nil
 	}
+	// sync.Pool under the cooperative scheduler: Put keeps the item, Get hands back the most
+	// recently kept one (what one P does without a GC in between) or calls New
+	type poolState struct{ items []Value }
+	poolOf := func(p *Path, ptr Value) *poolState {
+		c := ptr.(*Value)
+		if st, ok := p.side[c]; ok {
+			return st.(*poolState)
+		}
+		st := &poolState{}
+		p.side[c] = st
+		return st
+	}
+	models["(*sync.Pool).Put"] = func(p *Path, fn *ssa.Function, a []Value) Value {
+		p.stubsHit["sync.Pool (Get returns the most recently Put item, else New())"] = true
+		if itf, ok := a[1].(Iface); ok && itf.T == nil {
+			return nil
+		}
+		st := poolOf(p, a[0])
+		st.items = append(st.items, a[1])
+		return nil
+	}
+	models["(*sync.Pool).Get"] = func(p *Path, fn *ssa.Function, a []Value) Value {
+		p.stubsHit["sync.Pool (Get returns the most recently Put item, else New())"] = true
+		st := poolOf(p, a[0])
+		if n := len(st.items); n > 0 {
+			it := st.items[n-1]
+			st.items = st.items[:n-1]
+			return it
+		}
+		cell := a[0].(*Value)
+		pt := fn.Signature.Recv().Type().(*types.Pointer).Elem().Underlying().(*types.Struct)
+		for i := 0; i < pt.NumFields(); i++ {
+			if pt.Field(i).Name() == "New" {
+				nf := (*cell).(Struct)[i]
+				if nf == nil {
+					return Iface{}
+				}
+				if c, ok := nf.(*Closure); ok && c == nil {
+					return Iface{}
+				}
+				return p.call(nf, nil, nil)
+			}
+		}
+		return Iface{}
+	}
 	models["(*sync.Mutex).Lock"] = func(p *Path, fn *ssa.Function, a []Value) Value { return nil }
 	models["(*sync.Mutex).Unlock"] = func(p *Path, fn *ssa.Function, a []Value) Value { return nil }
 	models["(*sync.RWMutex).Lock"] = models["(*sync.Mutex).Lock"]
